@@ -4,6 +4,7 @@ package main
 // export_verif_archive.go) on generated trees in temp dirs, against Model/Archive.v.
 
 import (
+	"bufio"
 	"bytes"
 	"crypto/md5"
 	"encoding/hex"
@@ -191,12 +192,25 @@ func c15Fds() int {
 // c15Read drives the real reader to EOF or error; sample (if non-nil) runs after every Read.
 func c15Read(r io.Reader, sizes []int, dflt int, sample func()) ([][]byte, string) {
 	var outs [][]byte
+	// the caller's buffer is ONE array reused for every Read (as pipelineReadData and any
+	// plain read loop do) and scribbled over between calls: a reader that kept a reference
+	// to p instead of copying would deliver the scribble
+	maxSize := dflt
+	for _, x := range sizes {
+		if x > maxSize {
+			maxSize = x
+		}
+	}
+	backing := make([]byte, maxSize)
 	for i := 0; ; i++ {
 		size := dflt
 		if i < len(sizes) {
 			size = sizes[i]
 		}
-		p := make([]byte, size)
+		for j := range backing {
+			backing[j] = '!'
+		}
+		p := backing[:size]
 		n, err := r.Read(p)
 		if sample != nil {
 			sample()
@@ -236,9 +250,55 @@ func c15ErrClass(err error) string {
 	return "create"
 }
 
-// c15Write feeds segments to a real archive writer rooted in a fresh directory and
-// returns class|tree.
-func c15Write(tmp string, seq *int, rootSource string, segs [][]byte, sample func()) string {
+// How the segments reach the real writer.
+const (
+	c15Plain  = iota // each segment is its own immutable slice
+	c15Reused        // every segment is copied into ONE backing array, which is scribbled over after writeAll returns
+	c15Bufio         // io.CopyBuffer (one copy buffer) -> bufio.Writer (one internal buffer) -> writeAll per flush
+)
+
+type c15SegReader struct{ segs [][]byte }
+
+func (r *c15SegReader) Read(p []byte) (int, error) {
+	for len(r.segs) > 0 && len(r.segs[0]) == 0 {
+		r.segs = r.segs[1:]
+	}
+	if len(r.segs) == 0 {
+		return 0, io.EOF
+	}
+	n := copy(p, r.segs[0])
+	r.segs[0] = r.segs[0][n:]
+	return n, nil
+}
+
+// c15AllWriter is pipelineSaveData's use of the writer: one writeAll per chunk; it records
+// the byte values of every chunk (a copy) and scribbles over the caller's chunk afterwards
+type c15AllWriter struct {
+	w      io.Writer
+	seen   [][]byte
+	sample func()
+	err    error
+}
+
+func (a *c15AllWriter) Write(p []byte) (int, error) {
+	a.seen = append(a.seen, append([]byte(nil), p...))
+	err := trzsz.VerifWriteAll(a.w, p)
+	for i := range p {
+		p[i] = '!'
+	}
+	if a.sample != nil {
+		a.sample()
+	}
+	if err != nil {
+		a.err = err
+		return 0, err
+	}
+	return len(p), nil
+}
+
+// c15WriteMode feeds segments to a real archive writer rooted in a fresh directory and
+// returns class|tree and the segments (byte values) the writer was actually handed.
+func c15WriteMode(c *ctx, tmp string, seq *int, rootSource string, segs [][]byte, sample func(), mode int) (string, [][]byte) {
 	*seq++
 	dest := filepath.Join(tmp, fmt.Sprintf("dst%d", *seq))
 	if err := os.Mkdir(dest, 0755); err != nil {
@@ -250,18 +310,76 @@ func c15Write(tmp string, seq *int, rootSource string, segs [][]byte, sample fun
 		panic(err)
 	}
 	class := "ok"
-	for _, s := range segs {
-		err := trzsz.VerifWriteAll(w, s)
-		if sample != nil {
-			sample()
+	seen := segs
+	switch mode {
+	case c15Plain:
+		for _, s := range segs {
+			err := trzsz.VerifWriteAll(w, s)
+			if sample != nil {
+				sample()
+			}
+			if err != nil {
+				class = c15ErrClass(err)
+				break
+			}
 		}
-		if err != nil {
-			class = c15ErrClass(err)
-			break
+	case c15Reused:
+		maxLen := 0
+		for _, s := range segs {
+			if len(s) > maxLen {
+				maxLen = len(s)
+			}
 		}
+		aw := &c15AllWriter{w: w, sample: sample}
+		backing := make([]byte, maxLen)
+		for _, s := range segs {
+			n := copy(backing, s)
+			if _, err := aw.Write(backing[:n]); err != nil {
+				class = c15ErrClass(err)
+				break
+			}
+		}
+	case c15Bufio:
+		aw := &c15AllWriter{w: w, sample: sample}
+		bsz := []int{1, 2, 5, 16, 50, 128, 1000, 4096}[c.rng.Intn(8)]
+		csz := []int{1, 3, 7, 16, 64, 100, 4096, 32768}[c.rng.Intn(8)]
+		if total := len(c15Concat(segs)); total > 8192 {
+			// the model appends per segment (quadratic in the number of tiny segments): keep them medium
+			bsz, csz = []int{1000, 4096, 10240}[c.rng.Intn(3)], []int{700, 4096, 32768}[c.rng.Intn(3)]
+		}
+		bw := bufio.NewWriterSize(aw, bsz)
+		cp := make([]byte, csz)
+		// struct{io.Writer} / struct{io.Reader} hide ReadFrom/WriteTo so that the copy buffer is really used
+		_, err := io.CopyBuffer(struct{ io.Writer }{bw}, struct{ io.Reader }{&c15SegReader{append([][]byte(nil), segs...)}}, cp)
+		if err == nil {
+			err = bw.Flush()
+		}
+		if aw.err != nil {
+			class = c15ErrClass(aw.err)
+		} else if err != nil {
+			class = "copy:" + err.Error()
+		}
+		seen = aw.seen
 	}
 	w.Close()
-	return class + "|" + c15CanonDisk(filepath.Join(dest, name))
+	return class + "|" + c15CanonDisk(filepath.Join(dest, name)), seen
+}
+
+// c15Write: the default is the reused caller buffer (the strictest caller)
+func c15Write(tmp string, seq *int, rootSource string, segs [][]byte, sample func()) string {
+	res, _ := c15WriteMode(nil, tmp, seq, rootSource, segs, sample, c15Reused)
+	return res
+}
+
+// c15TreeKey names a round-trip failure: if the same byte values written from immutable
+// slices give the right tree, the writer depends on the caller not touching its buffer
+func c15TreeKey(tmp string, seq *int, rootSource string, seen [][]byte, want string, mode int) string {
+	if mode != c15Plain {
+		if res, _ := c15WriteMode(nil, tmp, seq, rootSource, seen, nil, c15Plain); res == want {
+			return "roundtrip-tree:reused-buffer"
+		}
+	}
+	return "roundtrip-tree"
 }
 
 type c15Hdr struct {
@@ -467,12 +585,25 @@ func genArchive(c *ctx) {
 			default:
 				segs = c.split(stream, []int{2, 5, 16, 50, 150, 1000, 40000}[c.rng.Intn(7)])
 			}
-			inH, atB := c.c15CountCuts(segs, bounds)
-			res := c15Write(tmp, &seq, rootSrc, segs, nil)
-			c.emit(inH || atB, "aw_write", res, tbl, hxs(segs))
+			mode := c15Reused
+			switch {
+			case k == 0:
+				mode = c15Bufio
+			case c.rng.Intn(5) == 0:
+				mode = c15Plain
+			}
+			c.count(fmt.Sprintf("writer:mode:%s", []string{"plain", "reused-buffer", "copybuffer+bufio"}[mode]))
+			res, seen := c15WriteMode(c, tmp, &seq, rootSrc, segs, nil, mode)
+			inH, atB := c.c15CountCuts(seen, bounds)
+			c.emit(inH || atB, "aw_write", res, tbl, hxs(seen))
 			if res != "ok|"+want {
-				c.violate("roundtrip-tree", "the tree written from the archive stream differs from the source tree",
-					fmt.Sprintf("%s table=%s segs=%s got=%s want=%s", key, tbl, hxs(segs), res, want))
+				// after an error the writer saw only a prefix: re-present the rest as one more segment
+				full := seen
+				if rest := stream[len(c15Concat(seen)):]; len(rest) > 0 {
+					full = append(append([][]byte(nil), seen...), rest)
+				}
+				c.violate(c15TreeKey(tmp, &seq, rootSrc, full, "ok|"+want, mode), "the tree written from the archive stream differs from the source tree",
+					fmt.Sprintf("%s mode=%d table=%s segs=%s got=%s want=%s", key, mode, tbl, hxs(seen), res, want))
 			}
 		}
 	}
@@ -550,8 +681,8 @@ func genArchive(c *ctx) {
 			res := c15Write(tmp, &seq, rootSrc, segs, nil)
 			c.emit(inH || atB, "aw_write", res, tbl, hxs(segs))
 			if res != want {
-				c.violate("roundtrip-tree", "the tree written from the archive stream differs from the source tree",
-					fmt.Sprintf("tiny#%d table=%s segs=%s got=%s want=%s", ti, tbl, hxs(segs), res, want))
+				c.violate(c15TreeKey(tmp, &seq, rootSrc, segs, want, c15Reused), "the tree written from the archive stream differs from the source tree",
+					fmt.Sprintf("tiny#%d mode=reused-buffer table=%s segs=%s got=%s want=%s", ti, tbl, hxs(segs), res, want))
 			}
 		}
 		for mask := 0; mask < 1<<len(uniq); mask++ {
@@ -621,10 +752,15 @@ func genArchive(c *ctx) {
 		} else {
 			c.count("change:grow")
 			// only the announced prefix is sent; the destination equals the tree as scanned
-			res := c15Write(tmp, &seq, rootSrc, c.split(c15Concat(outs), 40), nil)
-			if end != "eof" || res != "ok|"+c15CanonNodes(nodes) {
-				c.violate("grow-shifts", "a source file that grew after the scan corrupted the archive",
-					fmt.Sprintf("table=%s end=%s got=%s", tbl, end, res))
+			gsegs := c.split(c15Concat(outs), 40)
+			res := c15Write(tmp, &seq, rootSrc, gsegs, nil)
+			if want := "ok|" + c15CanonNodes(nodes); end != "eof" || res != want {
+				gkey := "grow-shifts"
+				if end == "eof" && c15TreeKey(tmp, &seq, rootSrc, gsegs, want, c15Reused) != "roundtrip-tree" {
+					gkey = "roundtrip-tree:reused-buffer" // the reader was fine; the writer kept the caller's slice
+				}
+				c.violate(gkey, "a source file that grew after the scan corrupted the archive",
+					fmt.Sprintf("table=%s end=%s segs=%s got=%s", tbl, end, hxs(gsegs), res))
 			}
 		}
 	}
@@ -780,13 +916,14 @@ func c15FdRun(c *ctx, tmp string, seq *int) {
 	rootSrc, _ := a.RootSource()
 	wbase := c15Fds() // the writer is judged against what was open when it started
 	wpeak := 0
-	res := c15Write(tmp, seq, rootSrc, c15CutAt(c15Concat(outs), func() []int {
+	fdSegs := c15CutAt(c15Concat(outs), func() []int {
 		var cuts []int
 		for x := 77; x < len(c15Concat(outs)); x += 77 {
 			cuts = append(cuts, x)
 		}
 		return cuts
-	}()), func() {
+	}())
+	res := c15Write(tmp, seq, rootSrc, fdSegs, func() {
 		if n := c15Fds(); n > wpeak {
 			wpeak = n
 		}
@@ -798,8 +935,12 @@ func c15FdRun(c *ctx, tmp string, seq *int) {
 	c.stats["fds:reader-peak-minus-baseline"] = rpeak - base
 	c.stats["fds:writer-peak-minus-baseline"] = wpeak - wbase
 	c.stats["fds:left-open-after-close"] = wafter - wbase
-	if end != "eof" || res != "ok|"+c15CanonNodes(nodes) {
-		c.violate("roundtrip-tree", "large flat tree not reconstructed", detail+" end="+end)
+	if want := "ok|" + c15CanonNodes(nodes); end != "eof" || res != want {
+		key := "roundtrip-tree"
+		if end == "eof" {
+			key = c15TreeKey(tmp, seq, rootSrc, fdSegs, want, c15Reused)
+		}
+		c.violate(key, "large flat tree not reconstructed", detail+" end="+end)
 	}
 	const slack = 2
 	if rpeak-base > slack {
